@@ -213,6 +213,13 @@ Definition cond_param (name : str) (kw : dict) : dict :=
 
 Definition under (t : str) : str := replace (s " ") (s "_") t.
 Definition oneline (t : str) : str := replace [nl] (s " ") t.
+(** [re.sub(r"\s", "_", t)]: every code point the unicode pattern [\s] matches
+    ([py_space_points], enumerated from the running interpreter) becomes "_" *)
+Definition is_py_space (c : N) : bool := existsb (N.eqb c) py_space_points.
+Definition subst_ws (t : str) : str := map (fun c => if is_py_space c then 95 else c) t.
+(** the Slurm job name (squeue / sacct rows are split on [\s+]); LSF and Flux
+    replace blanks only ([under]) *)
+Definition slurm_job_name (name : str) : str := subst_ws name.
 
 (** * Slurm: SlurmScriptAdapter.__init__ / get_header *)
 Definition slurm_exec (b : batch) : val := shell_of (b_kw b).
@@ -226,7 +233,7 @@ Definition header_entry (resources : dict) (e : str * template) : res (list str)
   if lookup_truthy key resources then l <- format tpl resources ;; Ok [l] else Ok [].
 
 Definition slurm_resources (bd : dict) (st : step) : dict :=
-  (s "job-name", VStr (under (st_name st))) :: (s "comment", VStr (oneline (st_desc st)))
+  (s "job-name", VStr (slurm_job_name (st_name st))) :: (s "comment", VStr (oneline (st_desc st)))
   :: truthy_items (run_items st) ++ bd.
 
 Definition header_lines_slurm (b : batch) (st : step) : res (list str) :=
